@@ -226,7 +226,7 @@ fn sty_sx(t: &garble_lang::token::SignedNumType) -> &'static str {
     match t { I8 => "i8", I16 => "i16", I32 => "i32", I64 => "i64", Unspecified => "sunspec" }
 }
 fn uexpr_sx(e: &garble_lang::ast::Expr<()>) -> String {
-    use garble_lang::ast::{ExprEnum, Op, Type, UnaryOp};
+    use garble_lang::ast::{ExprEnum, Op, UnaryOp};
     let list = |es: &Vec<garble_lang::ast::Expr<()>>| es.iter().map(|x| format!(" {}", uexpr_sx(x))).collect::<String>();
     match &e.inner {
         ExprEnum::True => "(t)".into(),
@@ -250,18 +250,88 @@ fn uexpr_sx(e: &garble_lang::ast::Expr<()>) -> String {
         }
         ExprEnum::FnCall(f, args) => format!("(call {f}{})", list(args)),
         ExprEnum::If(c, t, x) => format!("(if {} {} {})", uexpr_sx(c), uexpr_sx(t), uexpr_sx(x)),
-        ExprEnum::Cast(ty, x) => {
-            let t = match ty {
-                Type::Bool => "bool".to_string(),
-                Type::Unsigned(u) => uty_sx(u).to_string(),
-                Type::Signed(s) => sty_sx(s).to_string(),
-                Type::UntypedTopLevelDefinition(n, _) => format!("(named {n})"),
-                _ => return "(outside)".into(),
-            };
-            format!("(cast {t} {})", uexpr_sx(x))
-        }
+        ExprEnum::Cast(ty, x) => format!("(cast {} {})", utype_sx(ty), uexpr_sx(x)),
+        ExprEnum::Block(ss) => format!("(block{})", ss.iter().map(|x| format!(" {}", ustmt_sx(x))).collect::<String>()),
+        ExprEnum::Match(x, arms) => format!(
+            "(match {}{})",
+            uexpr_sx(x),
+            arms.iter().map(|(p, b)| format!(" (arm {} {})", upat_sx(p), uexpr_sx(b))).collect::<String>()
+        ),
         _ => "(outside)".into(),
     }
+}
+fn utype_sx(ty: &garble_lang::ast::Type) -> String {
+    use garble_lang::ast::Type;
+    match ty {
+        Type::Bool => "bool".to_string(),
+        Type::Unsigned(u) => uty_sx(u).to_string(),
+        Type::Signed(s) => sty_sx(s).to_string(),
+        Type::UntypedTopLevelDefinition(n, _) => format!("(named {n})"),
+        Type::Tuple(ts) => format!("(tuplety{})", ts.iter().map(|t| format!(" {}", utype_sx(t))).collect::<String>()),
+        Type::Array(t, n) => format!("(arr {} {n})", utype_sx(t)),
+        Type::ArrayConst(t, c) => format!("(arrc {} {c})", utype_sx(t)),
+        _ => "(outside)".into(),
+    }
+}
+fn upat_sx(p: &garble_lang::ast::Pattern<()>) -> String {
+    use garble_lang::ast::PatternEnum::*;
+    let list = |ps: &Vec<garble_lang::ast::Pattern<()>>| ps.iter().map(|x| format!(" {}", upat_sx(x))).collect::<String>();
+    let fields = |fs: &Vec<(String, garble_lang::ast::Pattern<()>)>| fs.iter().map(|(f, x)| format!(" ({f} {})", upat_sx(x))).collect::<String>();
+    match &p.0 {
+        Identifier(s) => format!("(pid {s})"),
+        True => "(ptrue)".into(),
+        False => "(pfalse)".into(),
+        NumUnsigned(n, t) => format!("(pnu {n} {})", uty_sx(t)),
+        NumSigned(n, t) => format!("(pns {n} {})", sty_sx(t)),
+        Tuple(ps) => format!("(ptup{})", list(ps)),
+        Struct(n, fs) => format!("(pstruct {n}{})", fields(fs)),
+        StructIgnoreRemaining(n, fs) => format!("(pstructrest {n}{})", fields(fs)),
+        EnumUnit(e, v) => format!("(penumu {e} {v})"),
+        EnumTuple(e, v, ps) => format!("(penumt {e} {v}{})", list(ps)),
+        UnsignedInclusiveRange(a, b, t) => format!("(purange {a} {b} {})", uty_sx(t)),
+        SignedInclusiveRange(a, b, t) => format!("(psrange {a} {b} {})", sty_sx(t)),
+    }
+}
+fn ustmt_sx(s: &garble_lang::ast::Stmt<()>) -> String {
+    use garble_lang::ast::{Accessor, StmtEnum};
+    let tyopt = |t: &Option<garble_lang::ast::Type>| match t { None => "(noty)".to_string(), Some(t) => format!("(ty {})", utype_sx(t)) };
+    let body = |ss: &Vec<garble_lang::ast::Stmt<()>>| ss.iter().map(|x| format!(" {}", ustmt_sx(x))).collect::<String>();
+    match &s.inner {
+        StmtEnum::Let(p, t, e) => format!("(let {} {} {})", upat_sx(p), tyopt(t), uexpr_sx(e)),
+        StmtEnum::LetMut(x, t, e) => format!("(letmut {x} {} {})", tyopt(t), uexpr_sx(e)),
+        StmtEnum::VarAssign(x, accs, e) => {
+            let a = accs.iter().map(|(a, _)| match a {
+                Accessor::ArrayAccess { index, .. } => format!(" (aidx {})", uexpr_sx(index)),
+                Accessor::TupleAccess { index, .. } => format!(" (atup {index})"),
+                Accessor::StructAccess { field, .. } => format!(" (afld {field})"),
+            }).collect::<String>();
+            format!("(assign {x} (accs{a}) {})", uexpr_sx(e))
+        }
+        StmtEnum::ForEachLoop(p, e, ss) => format!("(for {} {} (body{}))", upat_sx(p), uexpr_sx(e), body(ss)),
+        StmtEnum::JoinLoop(..) => "(outside)".into(),
+        StmtEnum::Expr(e) => format!("(expr {})", uexpr_sx(e)),
+    }
+}
+
+// `pblock` jobs: the real parser's untyped statements of one function body: `(pblock id (src "<body text>"))`,
+// wrapped into `pub fn main(zz: u8) -> u8 {<text>}`. Result: (stmts <stmt>..) | (err) | (outside) | (crash)
+pub fn job_pblock(job: &Sexp) -> String {
+    let text = job.field("src").args()[0].text();
+    let src = format!("pub fn main(zz: u8) -> u8 {{{text}}}");
+    let r = catch_unwind(AssertUnwindSafe(|| {
+        let toks = match garble_lang::scan::scan(&src) {
+            Ok(t) => t,
+            Err(_) => return "(err)".to_string(),
+        };
+        let prg = match toks.parse() {
+            Ok(p) => p,
+            Err(_) => return "(err)".to_string(),
+        };
+        let Some(main) = prg.fn_defs.get("main") else { return "(err)".to_string() };
+        let s = main.body.iter().map(|x| format!(" {}", ustmt_sx(x))).collect::<String>();
+        if s.contains("(outside)") { "(outside)".to_string() } else { format!("(stmts{s})") }
+    }));
+    r.unwrap_or_else(|_| "(crash)".to_string())
 }
 
 pub fn job_pexpr(job: &Sexp) -> String {
